@@ -348,6 +348,26 @@ func genHard(e *vh.Env, st *stats, boost int) {
 		return 150000000000 + r.Int63n(100000000000) // a few years after the epoch
 	}
 
+	// (0) deterministic: the node numbers around the top of every width, both node positions.  Whatever NewNode accepts is
+	// driven through a stalled and then ticking clock starting at an even millisecond (an extra node bit would collide
+	// with bit 0 of the time field or of the step field) and checked like any other node
+	for _, nb := range []uint8{8, 9, 10} {
+		for _, low := range []bool{false, true} {
+			top := int64(1)<<nb - 1
+			for _, node := range []int64{top - 1, top, top + 1, top + 2} {
+				ep := int64(1609430400000)
+				t := ep + 180000000000
+				var clk rle
+				clk.add(t, 6)
+				for i := int64(1); i <= 8; i++ {
+					clk.add(t+i, 1)
+				}
+				clk.add(t+8, 3)
+				emit(hardSpec{Class: "hard/node-boundary", Epoch: ep, NB: nb, Lowest: low, Node: node, Min: 0, Clock: clk})
+			}
+		}
+	}
+
 	// (1) sequential trajectories, all six layouts
 	n1 := e.Scale(140, 900) * boost
 	for i := 0; i < n1; i++ {
